@@ -15,6 +15,8 @@ import (
 var byHashFamilies = []string{
 	"Body:", "Header:", "Hash:", "TD:", "Seq:", "HashToSeq:", "LastSequence",
 	"CHAIN-body", "CHAIN-header", "CHAIN-receipt", "CHAIN-paratx",
+	// temporary storage of the fast-download path (blocks waiting to be executed)
+	"TB:", "LTB:",
 }
 
 func family(k []byte) string {
